@@ -367,10 +367,12 @@ Section Model.
     match l with
     | [] => true
     | (_, k) :: rest =>
-        match nth_error seen (N.to_nat k) with
-        | Some false => keys_dense rest (set_nth (N.to_nat k) true seen)
-        | _ => false
-        end
+        if k <? N.of_nat (length seen) then            (* seen_keys.get_mut(key.into_usize()) *)
+          match nth_error seen (N.to_nat k) with
+          | Some false => keys_dense rest (set_nth (N.to_nat k) true seen)
+          | _ => false
+          end
+        else false
     end.
 
   Fixpoint de_threaded_loop (l : list (str * N)) (t : trodeo) (next : N) : dres trodeo :=
